@@ -29,6 +29,7 @@ Non-trivial = container with at least one DEFLATE/PNG chunk; distinct = hash of 
     replay,
     exh: None,
     totality: true,
+    aggregate: None,
 };
 
 const KINDS: [ErrorKind; 5] = [
